@@ -41,5 +41,111 @@ def run(chk):
                 'one ACK; distinct by per-operation effect signature', nontrivial, prop_sig)
 
 
+    if not chk.broken:
+        call_cases(chk)
+
+
+def call_cases(chk):
+    """Server.call() / AsyncServer.call(): emit with an internal callback, wait, shape the result.
+    The wait primitive is replaced by a fake event whose wait() delivers the scripted ACK (or nothing)."""
+    import asyncio
+    import json
+    from vt import coqio
+    from vt.coqio import pv, clist
+    from drivers import srv
+    cfg = {'handlers': {'/': {'connect': 1}, '/chat': {'connect': 2}}, 'ns_handlers': {},
+           'behav': {1: {'arity': 2, 'actions': [], 'outcome': ('ret', None)},
+                     2: {'arity': 2, 'actions': [], 'outcome': ('ret', None)}},
+           'namespaces': ['/', '/chat'], 'always_connect': False, 'serializer': 'default'}
+    acks = [[], [0], [False], [''], [[]], [{}], [None], [0.0], [1], ['x'], [[1, 2]], [{'a': 1}], [0, 0], [1, 'b'], [None, None],
+            [b'\x01'], ['a', b'b', 3], None, None]
+    rng = chk.rng
+    cases, meta = [], []
+
+    async def one(mode, ns, args):
+        d = srv.ServerDriver(cfg, mode)
+        sio = d.sio
+        sio.async_handlers = True          # call() refuses to run otherwise; only ACK packets arrive meanwhile
+        await d.op(('eio_connect', 'e0', {}))
+        await d.op(('msg', 'e0', '0' if ns == '/' else '0' + ns + ','))
+        sid = 'S0'
+
+        def ack_payloads():
+            ids = [k for k in sio.manager.callbacks.get(sid, {}) if k != 0]
+            if args is None or not ids:
+                return []
+            data, atts = [], []
+            for a in args:
+                if isinstance(a, bytes):
+                    data.append({'_placeholder': True, 'num': len(atts)})
+                    atts.append(a)
+                else:
+                    data.append(a)
+            head = ('6%d-' % len(atts) if atts else '3') + ('' if ns == '/' else ns + ',') + str(max(ids)) + \
+                json.dumps(data, separators=(',', ':'))
+            return [head] + atts
+
+        if mode == 'sync':
+            class Ev:
+                flag = False
+
+                def set(self):
+                    self.flag = True
+
+                def wait(self, timeout=None):
+                    for p in ack_payloads():
+                        d.sockets['e0'].receive(d.eio_packet.Packet(d.eio_packet.MESSAGE, p))
+                    return self.flag
+            sio.eio.create_event = lambda *a, **k: Ev()
+            try:
+                return True, sio.call('q', 'data', to=sid, namespace=ns, timeout=rng.choice([0, 1, 60]))
+            except BaseException as e:
+                return False, coqio.exn_name(e)
+        else:
+            class AEv:
+                flag = False
+
+                def set(self):
+                    self.flag = True
+
+                async def wait(self):
+                    for p in ack_payloads():
+                        await d.sockets['e0'].receive(d.eio_packet.Packet(d.eio_packet.MESSAGE, p))
+                    if not self.flag:
+                        raise asyncio.TimeoutError()
+                    return True
+            sio.eio.create_event = lambda *a, **k: AEv()
+            try:
+                return True, await sio.call('q', 'data', to=sid, namespace=ns, timeout=rng.choice([1, 60]))
+            except BaseException as e:
+                return False, coqio.exn_name(e)
+
+    for mode in ('sync', 'async'):
+        for ns in ('/', '/chat'):
+            for args in acks:
+                ok, res = asyncio.run(one(mode, ns, args))
+                try:
+                    obs = '(Ok %s)' % pv(res) if ok else '(Err %s)' % res
+                except TypeError:
+                    obs = '(Err OtherError)'
+                cases.append('(%s, %s)' % ('None' if args is None else '(Some %s)' % clist([pv(a) for a in args]), obs))
+                meta.append((mode, ns, args, res))
+                chk.count(1, ('call', mode, ns, repr(args)), None)
+                chk.dist('call() ack arity %s' % ('none' if args is None else len(args)))
+    codes, errors = coqio.eval_cases('c06_call', 'From VT Require Import Check.C06CallCheck.', '', 'call_case', cases,
+                                     'c06_call_eval', shard=200)
+    for e in errors:
+        chk.broken_obligation('case evaluation failed: ' + e)
+    for idx in sorted(codes):
+        mode, ns, args, res = meta[idx]
+        chk.violation('call-result-shaping-%s' % mode,
+                      '%s server: call() acknowledged with %r returned / raised %r' % (mode, args, res),
+                      {'mode': mode, 'namespace': ns, 'ack_args': repr(args), 'observed': repr(res)})
+        break
+
+
 def replay(chk, data):
+    if 'ack_args' in data.get('replay', {}):
+        print(data['replay'])
+        return 1
     return srvprop.replay(chk, data, 'c06')
